@@ -503,10 +503,17 @@ static std::string checkLine(const Collider& col, int n, bool identical, long& n
   addq(n + 1, n + 5);
   addq(-3, -1);
   auto leafLo = [&](int l) { return identical ? 0 : l; };
+  // all-pairs scan, written as its closed form: leaf l sits at x = l (or at 0 when identical)
   std::vector<std::pair<int, int>> want;
-  for (int q = 0; q < (int)qiv.size(); ++q)
-    for (int l = 0; l < n; ++l)
-      if (leafLo(l) >= qiv[q].first && leafLo(l) <= qiv[q].second) want.push_back({q, l});
+  for (int q = 0; q < (int)qiv.size(); ++q) {
+    int a = qiv[q].first, b = qiv[q].second;
+    if (identical) {
+      if (a <= 0 && 0 <= b)
+        for (int l = 0; l < n; ++l) want.push_back({q, l});
+    } else {
+      for (int l = std::max(a, 0); l <= std::min(b, n - 1); ++l) want.push_back({q, l});
+    }
+  }
   ListRecorder rec;
   col.Collisions<false>(rec, VecView<const Box>(qb.data(), qb.size()));
   auto got = rec.store;
@@ -528,9 +535,13 @@ static std::string checkLine(const Collider& col, int n, bool identical, long& n
   for (int j = 0; j < n; ++j) qp.push_back(vec3(j, 0, 0));
   qp.push_back(vec3(n + 3, 0, 0));
   want.clear();
-  for (int q = 0; q < (int)qp.size(); ++q)
-    for (int l = 0; l < n; ++l)
-      if (leafLo(l) == (q < n ? q : n + 3)) want.push_back({q, l});
+  for (int q = 0; q < n; ++q) {  // the last point (n+3,0,0) hits nothing
+    if (identical) {
+      if (q == 0)
+        for (int l = 0; l < n; ++l) want.push_back({q, l});
+    } else
+      want.push_back({q, q});
+  }
   ListRecorder rec2;
   auto pf = [&](const int i) { return qp[i]; };
   col.Collisions<false>(rec2, pf, (int)qp.size(), false);
@@ -765,6 +776,8 @@ static std::vector<Seg> family(int fam, int n, bool& shared) {
 int main(int argc, char** argv) {
   Runner R("C14", argc, argv);
   const bool thorough = R.a.thorough();
+  // the sanitizer build runs a smaller quick bound (same phases, smaller alphabets); thorough is identical in both
+  const bool asanQuick = kAsan && !thorough;
   initBin();
   const std::vector<uint32_t> SYM5 = {0, 1, 4, 5, 0x3FFFFFFFu};
   const QuerySet QFULL = makeQFull();
@@ -809,7 +822,7 @@ int main(int argc, char** argv) {
   // fresh build + UpdateBoxes histories (full query set), then every axis-aligned map
   {
     auto seqs = codeSeqs(2, SYM5);
-    std::vector<int> radix = {36, 36, (int)seqs.size(), 3};
+    std::vector<int> radix = {36, 36, (int)seqs.size(), asanQuick ? 1 : 3};
     R.phase("col-n2", product(radix), (uint64_t)seqs.size() * 3,
             [&](uint64_t idx, Ctx& c) {
               auto d = digits(idx, radix);
@@ -820,7 +833,7 @@ int main(int argc, char** argv) {
               for (int i = 0; i < 2; ++i) cc.codes[i] = seqs[d[2]][i];
               std::string ds = cc.desc();
               runStatic(c, cc, ds, QFULL, QFULL, true);
-              if (d[3] == 0 || thorough)
+              if ((d[3] == 0 && !asanQuick) || thorough)
                 for (auto& g : XFS) runXform(c, cc, ds, g, QFULL, true);
               if (idx % 9973 == 0) c.sample(ds);
             },
@@ -831,24 +844,27 @@ int main(int argc, char** argv) {
   {
     auto seqs = codeSeqs(3, SYM5);
     const int nemb = thorough ? 3 : 1;  // quick: the xy plane (n=2 covers all planes, col-n3-xform all axis permutations)
-    std::vector<int> radix = {36, 36, 36, (int)seqs.size(), nemb};
+    const int nb3 = asanQuick ? 9 : 36;  // ASan quick: boxes of {0,1}^2
+    std::vector<int> radix = {nb3, nb3, nb3, (int)seqs.size(), nemb};
     R.phase("col-n3", product(radix), (uint64_t)seqs.size() * nemb,
             [&](uint64_t idx, Ctx& c) {
               auto d = digits(idx, radix);
               ColCase cc;
               cc.n = 3;
-              for (int i = 0; i < 3; ++i) cc.L[i] = emb2(d[i], d[4]), cc.codes[i] = seqs[d[3]][i];
+              for (int i = 0; i < 3; ++i) cc.L[i] = asanQuick ? emb2(d[i], d[4], IVS, 3) : emb2(d[i], d[4]), cc.codes[i] = seqs[d[3]][i];
               std::string ds = cc.desc();
-              runStatic(c, cc, ds, kAsan && !thorough ? QPL[d[4]] : QFULL, QPL[d[4]], false);
+              runStatic(c, cc, ds, QFULL, QPL[d[4]], false);
               if (idx % 300007 == 0) c.sample(ds);
             },
             CN, 24);
   }
 
-  // ---------- Collider, n = 3 under Transform: boxes of {0,1}^2 (9; thorough: all 36) x 35 sequences x 58 maps
+  // ---------- Collider, n = 3 under Transform: boxes of {0,1}^2 (9; thorough: all 36) x code sequences over
+  // {0,5,0x3FFFFFFF} (10; thorough: SYM5, 35) x 58 maps.  (n = 3 has only two tree shapes; Transform is per node.)
+  const std::vector<uint32_t> SYM3 = {0, 5, 0x3FFFFFFFu};
   {
-    auto seqs = codeSeqs(3, SYM5);
-    const int nb = thorough ? 36 : 9;
+    auto seqs = codeSeqs(3, thorough ? SYM5 : SYM3);
+    const int nb = thorough ? 36 : asanQuick ? 3 : 9;  // ASan quick subset: the 3 boxes [0..0|0..1|1..1] x [0..0]
     std::vector<int> radix = {nb, nb, nb, (int)seqs.size(), (int)XFS.size()};
     R.phase("col-n3-xform", product(radix), XFS.size(),
             [&](uint64_t idx, Ctx& c) {
@@ -869,9 +885,10 @@ int main(int argc, char** argv) {
   // ---------- Collider, n = 4, 5 (thorough: 6) with 1-D boxes along each axis
   for (int n = 4; n <= (thorough ? 6 : 5); ++n) {
     auto seqs = codeSeqs(n, SYM5);
-    const int nax = (n == 6 || (kAsan && !thorough && n == 5)) ? 1 : 3;
+    const int nax = (n == 6 || (!thorough && n == 5)) ? 1 : 3;  // quick n=5: along x only (n=4 covers every axis)
+    const int niv = asanQuick ? 3 : 6;                              // ASan quick: intervals over {0,1}
     std::vector<int> radix;
-    for (int i = 0; i < n; ++i) radix.push_back(6);
+    for (int i = 0; i < n; ++i) radix.push_back(niv);
     radix.push_back((int)seqs.size());
     radix.push_back(nax);
     R.phase("col-n" + std::to_string(n), product(radix), (uint64_t)seqs.size() * nax,
@@ -880,7 +897,7 @@ int main(int argc, char** argv) {
               ColCase cc;
               cc.n = n;
               int e = d[n + 1];
-              for (int i = 0; i < n; ++i) cc.L[i] = emb1(d[i], e), cc.codes[i] = seqs[d[n]][i];
+              for (int i = 0; i < n; ++i) cc.L[i] = asanQuick ? emb1(d[i], e, IVS) : emb1(d[i], e), cc.codes[i] = seqs[d[n]][i];
               // the plane that contains axis e: e=0 -> xy, e=1 -> yz, e=2 -> xz
               const QuerySet& QP = QPL[e == 0 ? 0 : e == 1 ? 1 : 2];
               std::string ds = cc.desc();
@@ -891,8 +908,8 @@ int main(int argc, char** argv) {
   }
 
   // ---------- Collider, n = 4 (thorough: 5) under Transform: 1-D boxes over {0,1} along x x sequences x maps
-  for (int n = 4; n <= (thorough ? 5 : 4); ++n) {
-    auto seqs = codeSeqs(n, SYM5);
+  for (int n = 4; n <= (thorough ? 5 : 4) && !asanQuick; ++n) {
+    auto seqs = codeSeqs(n, thorough ? SYM5 : SYM3);
     std::vector<int> radix;
     for (int i = 0; i < n; ++i) radix.push_back(3);
     radix.push_back((int)seqs.size());
@@ -917,7 +934,7 @@ int main(int argc, char** argv) {
     for (int a = 0; a < 3; ++a)
       for (int b = 0; b < 3; ++b)
         for (int cc = 0; cc < 3; ++cc) b27.push_back(IB{{IVS[a][0], IVS[b][0], IVS[cc][0]}, {IVS[a][1], IVS[b][1], IVS[cc][1]}});
-    for (int n = 2; n <= 4; ++n) {
+    for (int n = 2; n <= (asanQuick ? 3 : 4); ++n) {
       std::vector<int> radix(n, 27);
       R.phase("col-morton-n" + std::to_string(n), product(radix), 27,
               [&, n](uint64_t idx, Ctx& c) {
@@ -956,7 +973,7 @@ int main(int argc, char** argv) {
   {
     std::vector<uint32_t> sym = SYM5;
     if (thorough) sym = {0, 1, 4, 5, 6, 0x3FFFFFFFu};
-    const int Lmax = thorough ? 20 : 16, k = (int)sym.size();
+    const int Lmax = thorough ? 20 : asanQuick ? 12 : 16, k = (int)sym.size();
     std::vector<uint64_t> off = {0};
     for (int n = 2; n <= Lmax; ++n) off.push_back(off.back() + nMulti(n, k));
     R.phase("radix-shape", off.back() * 2, 64,
@@ -981,8 +998,14 @@ int main(int argc, char** argv) {
   // codes = 0 x p, 5 x L, 0x3FFFFFFF x s
   {
     std::vector<int> Ls, Ps = {0, 1, 2, 3, 7, 8, 9, 127, 128, 129, 130}, Ss = {0, 1, 2, 128, 129};
-    for (int L = 126; L <= 131; ++L) Ls.push_back(L);
-    for (int L = 510; L <= 515; ++L) Ls.push_back(L);
+    if (asanQuick) {
+      Ls = {127, 128, 129, 511, 512, 513};
+      Ps = {0, 1, 128, 129};
+      Ss = {0, 1, 129};
+    } else {
+      for (int L = 126; L <= 131; ++L) Ls.push_back(L);
+      for (int L = 510; L <= 515; ++L) Ls.push_back(L);
+    }
     if (thorough) {
       for (int L = 2046; L <= 2050; ++L) Ls.push_back(L);
       for (int L = 8190; L <= 8194; ++L) Ls.push_back(L);
@@ -1001,6 +1024,7 @@ int main(int argc, char** argv) {
             },
             {"cases", "pairs_expected", "max_depth_sum"});
     // two adjacent long runs
+    if (asanQuick) Ls = {127, 129, 511, 513};
     std::vector<int> radix2 = {(int)Ls.size(), (int)Ls.size(), 2};
     R.phase("radix-runs2", product(radix2), 1,
             [&](uint64_t idx, Ctx& c) {
@@ -1024,8 +1048,8 @@ int main(int argc, char** argv) {
     std::vector<Box2> qb;
     for (auto& r : r36) qb.push_back(toBox2(r));
     qb.push_back(Box2());  // empty
-    for (int n = 2; n <= (thorough ? 6 : 5); ++n) {
-      const std::vector<IB2>& src = n <= 3 ? r36 : r9;
+    for (int n = 2; n <= (thorough ? 6 : asanQuick ? 4 : 5); ++n) {
+      const std::vector<IB2>& src = n <= (asanQuick ? 2 : 3) ? r36 : r9;
       std::vector<int> radix(n, (int)src.size());
       R.phase("bvh2d-n" + std::to_string(n), product(radix), src.size(),
               [&, n](uint64_t idx, Ctx& c) {
@@ -1100,16 +1124,17 @@ int main(int argc, char** argv) {
   // ---------- edge-pair broad phase on small edge sets: both paths (sweep / BVH) x eps in {0, 1/4} x
   // {private vertices, shared vertices}; k = 2, 3 directed lattice segments of {0,1,2}^2, k = 4 (thorough 5) of {0,1}^2
   {
-    auto segsOf = [](int m) {
+    auto segsOf = [](int m, bool directed) {
       std::vector<Seg> s;
       for (int a = 0; a < m * m; ++a)
         for (int b = 0; b < m * m; ++b)
-          if (a != b) s.push_back({a / m, a % m, b / m, b % m});
+          if (a != b && (directed || a < b)) s.push_back({a / m, a % m, b / m, b % m});
       return s;
     };
-    std::vector<Seg> s72 = segsOf(3), s12 = segsOf(2);
+    // ASan quick: k = 3, 4 over undirected segments (36 / 6) instead of directed ones (72 / 12)
+    std::vector<Seg> s72 = segsOf(3, true), s12 = segsOf(2, !asanQuick), s36 = segsOf(3, false);
     for (int k = 2; k <= (thorough ? 5 : 4); ++k) {
-      const std::vector<Seg>& src = k <= 3 ? s72 : s12;
+      const std::vector<Seg>& src = k == 2 ? s72 : k == 3 ? (asanQuick ? s36 : s72) : s12;
       std::vector<int> radix(k, (int)src.size());
       radix.push_back(2);
       radix.push_back(2);
@@ -1129,7 +1154,8 @@ int main(int argc, char** argv) {
                 if (!why.empty()) c.viol("pairs:" + ds, ds, why);
                 // distinct = distinct (input, expected candidate set); non-trivial = some but not all pairs are candidates
                 // (k = 2: the single pair is a candidate)
-                uint64_t h = hash_bytes(want.data(), want.size() * sizeof(want[0]), mix64(idx + 1));
+                uint64_t h = mix64(idx + 1);
+                if (!want.empty()) h = hash_bytes(want.data(), want.size() * sizeof(want[0]), h);
                 c.distinct(h);
                 if (nt || (k == 2 && !want.empty())) c.nontrivial(h);
                 c.count("cases");
@@ -1143,6 +1169,7 @@ int main(int argc, char** argv) {
   // ---------- edge-pair broad phase on both sides of kEdgePairBvhThreshold = 1024: structural families
   {
     std::vector<int> Ns = {1022, 1023, 1024, 1025, 1026};
+    if (asanQuick) Ns = {1023, 1024, 1025};
     if (thorough)
       for (int n : {511, 512, 513, 2047, 2048, 2049, 4096, 4100}) Ns.push_back(n);
     std::vector<int> radix = {NFAM, (int)Ns.size(), 2};
@@ -1163,7 +1190,7 @@ int main(int argc, char** argv) {
               c.count("cases");
               c.count("pairs_expected", np);
               c.count(n >= kEdgePairBvhThreshold ? "driver_would_use_bvh" : "driver_would_use_sweep");
-              if (d[1] == 2) c.sample(ds + ": " + std::to_string(np) + " pairs");
+              if (n == 1024) c.sample(ds + ": " + std::to_string(np) + " pairs");
             },
             {"cases", "pairs_expected", "driver_would_use_bvh", "driver_would_use_sweep"});
   }
@@ -1211,8 +1238,11 @@ int main(int argc, char** argv) {
               auto a = canon(r1, false), b = canon(r2, false), f = canon(r2, true);
               c.count("cases");
               c.count("pairs_expected", (long)a.size());
-              c.distinct(hash_bytes(a.data(), a.size() * sizeof(a[0])));
-              if (!a.empty()) c.nontrivial(hash_bytes(a.data(), a.size() * sizeof(a[0])));
+              if (!a.empty()) {
+                uint64_t h = hash_bytes(a.data(), a.size() * sizeof(a[0]));
+                c.distinct(h);
+                c.nontrivial(h);
+              }
               if (a != b) {
                 std::ostringstream s;
                 s << "1023-edge input (sweep broad phase) gives " << a.size() << " output edges, the same input + a far triangle (1026 edges, BVH broad phase) gives "
@@ -1229,9 +1259,9 @@ int main(int argc, char** argv) {
   {
     // n <= 8: linear scan; 9..17: one split level; >= 18: the `<= 8` leaf rule is straddled at the second level
     std::vector<int> sizes;
-    for (int n = 0; n <= 12; ++n) sizes.push_back(n);
-    if (kAsan && !thorough) {
-      // ASan quick subset: one split level only (second level is in the seq-fast run)
+    for (int n = 0; n <= (asanQuick ? 10 : 12); ++n) sizes.push_back(n);
+    if (asanQuick) {
+      // ASan quick subset: one split level only (the second level is in the seq-fast run and in thorough)
     } else {
       sizes.push_back(18);
       if (thorough)
@@ -1258,6 +1288,10 @@ int main(int argc, char** argv) {
               size_t si = 0;
               while (i >= off[si + 1]) ++si;
               int n = sizes[si];
+              if (!thorough && n > 12 && ord != 2) {  // quick: the two-level sizes only in the order that is neither sort order
+                c.count("skipped");
+                return;
+              }
               int cnt[9];
               unrankMulti(i - off[si], n, 9, cnt);
               std::vector<PolyVert> pts;
@@ -1308,7 +1342,7 @@ int main(int argc, char** argv) {
                 pairs += hits;
                 if (hits > 0 && hits < n) nt = true;
               }
-              uint64_t h = hash_bytes(pts.data(), pts.size() * sizeof(PolyVert), n);
+              uint64_t h = pts.empty() ? 1 : hash_bytes(pts.data(), pts.size() * sizeof(PolyVert), n);
               c.distinct(h);
               if (nt && n > 8) c.nontrivial(h);
               c.count("cases");
@@ -1316,7 +1350,7 @@ int main(int argc, char** argv) {
               c.count("pairs_expected", pairs);
               if (idx % 700001 == 0) c.sample(ds);
             },
-            {"cases", "queries", "pairs_expected"}, 24);
+            {"cases", "queries", "pairs_expected", "skipped"}, 24);
   }
 
   // ---------- polygon k-d tree: all subsets of >= 9 points of the 4x4 lattice (distinct points) x all 100 rectangles
@@ -1325,7 +1359,7 @@ int main(int argc, char** argv) {
     R.phase("kd2d-4x4", 65536, 64,
             [&](uint64_t idx, Ctx& c) {
               int n = __builtin_popcount((unsigned)idx);
-              if (n < 9 || (!thorough && n > 12)) {
+              if (n < 9 || (!thorough && n > (asanQuick ? 10 : 12))) {
                 c.count("skipped");
                 return;
               }
